@@ -406,6 +406,20 @@ theorem line_multiplicity (fl : ParserFlags) (pf : Pf V) (name v r : Bytes) (x :
 
 /-! ### Identity of the series -/
 
+/-- `Reg.firstHelp?`, the help string a *new* vector of an already known family gets (`series_identity`), spelled
+    out: it is the help of the first vector of the metric entry the name resolves to; there is none iff the name
+    is not registered or its entry has no vector yet — only then does the event's own help text count. -/
+theorem first_help_spec (r : Reg V) (name : Bytes) :
+    (∀ h, r.firstHelp? name = some h ↔ ∃ m v rest, r.find name = some m ∧ m.vecs = v :: rest ∧ v.help = h) ∧
+    (r.firstHelp? name = none ↔ ∀ m, r.find name = some m → m.vecs = []) ∧
+    (r.type? name = none → r.firstHelp? name = none) := by
+  refine ⟨firstHelp?_some_iff r name, firstHelp?_none_iff r name, ?_⟩
+  intro h
+  rw [firstHelp?_none_iff]
+  intro m hm
+  unfold Reg.type? at h
+  rw [hm] at h; cases h
+
 /-- **The series an applied event touches.** If `handleEvent` applies an event on a well-formed registry
     (it is counted in `counts.applied`), the event has a touch `t`, and
     * name: `t.name` is the escaped (`specEscape`) mapped name when a rule matched (`m.name`, the expanded
@@ -418,9 +432,12 @@ theorem line_multiplicity (fl : ParserFlags) (pf : Pf V) (name v r : Bytes) (x :
       other series changed;
     * vector: if the vector (name, label names) existed, it is unchanged (help and bounds stay those of the
       event that created it: `getOrCreate` never changes an existing vector); otherwise it is created with
-      these label names, help = the rule's help, or the default text `defaultHelp` when the rule has none or
-      no rule matched, and — for a histogram — bounds = the rule's buckets if it has histogram options with
-      buckets, else the default buckets. -/
+      these label names, help = the help string of the first vector ever created for this metric name
+      (`Reg.firstHelp?`, the registry's `helpFor`: one help string per family, whatever later rules or reloaded
+      configurations say — `first_help_spec`) or, when the name has no vector yet, the event's help text
+      `evHelp` = the rule's help, or the default text `defaultHelp` when the rule has none or no rule matched,
+      and — for a histogram — bounds = the rule's buckets if it has histogram options with buckets, else the
+      default buckets. -/
 theorem series_identity (p p' : Pipe V) (rx : Rx) (ev : Ev V) (tags : Labels) (hw : RegWF p.reg)
     (h : handleEvent p rx ev tags = some (.ok p')) (ha : p'.counts.applied = p.counts.applied + 1) :
     ∃ t, touchOf p rx ev tags = some t ∧
@@ -446,7 +463,8 @@ theorem series_identity (p p' : Pipe V) (rx : Rx) (ev : Ev V) (tags : Labels) (h
       (∀ v, p.reg.vec? t.name (t.labels.map (·.1)) = some v → p'.reg.vec? t.name (t.labels.map (·.1)) = some v) ∧
       (p.reg.vec? t.name (t.labels.map (·.1)) = none →
         ∃ v, p'.reg.vec? t.name (t.labels.map (·.1)) = some v ∧ v.names = t.labels.map (·.1) ∧
-          v.help = evHelp p rx ev ∧ (t.ty = .histogram → v.bounds = evBounds p rx ev)) ∧
+          v.help = (p.reg.firstHelp? t.name).getD (evHelp p rx ev) ∧
+          (t.ty = .histogram → v.bounds = evBounds p rx ev)) ∧
       -- help and bounds, spelled out
       (∀ r, evRule p rx ev = some r → r.help ≠ [] → evHelp p rx ev = r.help) ∧
       (∀ r, evRule p rx ev = some r → r.help = [] → evHelp p rx ev = defaultHelp) ∧
